@@ -346,6 +346,12 @@ func (r *reassemblyQueue) pushWithError(chunk *chunkPayloadData) (bool, error) {
 	if cset != nil && cset.hasTSN(chunk.tsn) {
 		return false, nil
 	}
+	if cset != nil && cset.isComplete() {
+		// The message with this SSN has been received completely and waits to be
+		// read: a further fragment cannot belong to it and must not take it apart
+		// again (the I-DATA path has the same guard).
+		return false, nil
+	}
 	if r.hasDataLimit() && r.isDataLimitReached(r.orderedDataEntryCount()) {
 		return false, errReassemblyQueueLimitExceeded
 	}
